@@ -35,6 +35,9 @@ def run(ctx, rep):
     r3(ctx, prog, evalr, rep)
     r4(ctx, prog, evalr, rep)
     r5(ctx, prog, ev, evalr, rep)
+    if ctx.tier == "thorough":
+        from vflib import witness
+        witness.report(rep, "C15-W", ['W4'], "witness: the engine instantiates at a second Queryable implementor defined outside the crate")
 
 
 def concrete_types(prog):
